@@ -118,26 +118,46 @@ instance (n : PNode) : Decidable (NodeOkB n) := by
 def InShippedRange (imports : List Req) : Prop :=
   ∀ d t, d = "" ∨ d = "ai.onnx.ml" → lookup d imports = some t → t ≤ shippedMax d
 
-/-- Every entry is adapted by `adapt_best_effort` against opsets that dominate its own requirement. -/
-theorem entry_invariant (g : PGraph) : ∀ e ∈ (buildModel genFacts g).main, EntryOk genFacts e :=
+/-- Every entry — in the main graph or in a body at any depth — is adapted by `adapt_best_effort`
+    against opsets that dominate its own requirement and agree with the model's imports. -/
+theorem entry_invariant (g : PGraph) :
+    ∀ e ∈ (buildModel genFacts g).main, EntryOk genFacts (reqGraph genFacts g ++ []) e :=
   adaptGraph_ok genFacts [] g
 
-/-- **Partial** (`hbody` excludes the listed finding `adapt:body-own-opsets`, `concrete` inside `NodeOk`
-    excludes `adapt:unknown-rank`): a node adapted against the model's own imports is emitted in a form
-    that is well-formed at the imported version of its domain — kept when the schema in force at the
-    import is the one it was written for or accepts its form (decided against the generated schema
-    history for every shipped constructor), otherwise sent to the converter with exactly the imported
-    version as target. -/
+/-- Bodies are adapted against the model's opsets: whatever the nesting depth and whatever the body's
+    own maximum, every lookup in the opsets a node is adapted against answers like the model's imports. -/
+theorem body_opsets_agree (g : PGraph) (e : Entry) (he : e ∈ (buildModel genFacts g).main) (d : String) :
+    lookup d e.opsets = lookup d (buildModel genFacts g).imports :=
+  (entry_invariant g e he).2.2 d
+
+/-- The same inside every emitted function (its graph and the bodies below it) with respect to the
+    function's own imports. -/
+theorem function_opsets_agree (g : PGraph) :
+    ∀ f ∈ (buildModel genFacts g).funcs, ∀ e ∈ f.2, ∀ d, lookup d e.opsets = lookup d f.1 := by
+  intro f hf e he d
+  simp only [buildModel, List.mem_map] at hf
+  obtain ⟨fg, _, rfl⟩ := hf
+  exact (adaptGraph_ok genFacts _ fg e he).2.2 d
+
+/-- **Partial** (`concrete` inside `NodeOk` excludes the listed finding `adapt:unknown-rank`; what the
+    converter emits is a parameter): every node of the main graph and of every body below it, at any
+    depth, is emitted in a form that is well-formed at the imported version of its domain — kept when the
+    schema in force at the import is the one it was written for or accepts its form (decided against the
+    generated schema history for every shipped constructor), otherwise sent to the converter with exactly
+    the imported version as target. -/
 theorem node_valid_at_import_partial (g : PGraph) (e : Entry)
     (he : e ∈ (buildModel genFacts g).main)
-    (hbody : e.opsets = (buildModel genFacts g).imports)
     (hok : NodeOk e.node)
     (hrange : InShippedRange (buildModel genFacts g).imports) :
     entryValid (buildModel genFacts g).imports e = true := by
-  obtain ⟨hdec, hdom⟩ := entry_invariant g e he
-  rw [← hbody] at hrange ⊢
+  obtain ⟨hdec, hdom, hag⟩ := entry_invariant g e he
+  have hag' : ∀ d, lookup d e.opsets = lookup d (buildModel genFacts g).imports := hag
+  rw [← entryValid_congr hag' e]
+  have hrange' : InShippedRange e.opsets := by
+    intro d t hd ht
+    exact hrange d t hd (by rw [← body_opsets_agree g e he d]; exact ht)
   obtain ⟨ops, node, dec⟩ := e
-  simp only at hdec hdom hrange hok ⊢
+  simp only at hdec hdom hrange' hok ⊢
   subst hdec
   obtain ⟨k, np, c, subs, i⟩ := node
   cases k with
@@ -145,7 +165,7 @@ theorem node_valid_at_import_partial (g : PGraph) (e : Entry)
     simp only [NodeOk, PNode.kind, PNode.nProtos, PNode.concrete, PNode.subs] at hok
     obtain ⟨h1, h2, h3⟩ := hok
     have hd := shipped_domain h3
-    exact op_valid ops d o v np c subs i hdom h1 h2 h3 (fun t ht => hrange d t hd ht)
+    exact op_valid ops d o v np c subs i hdom h1 h2 h3 (fun t ht => hrange' d t hd ht)
   | inline imps hd => exact inline_valid ops imps hd np c subs i hdom
   | internal => simp [entryValid, PNode.kind]
   | intro => simp [entryValid, PNode.kind]
@@ -154,7 +174,7 @@ theorem node_valid_at_import_partial (g : PGraph) (e : Entry)
 /-- The decision itself never fails (`opsets[domain]` is always present) for shipped constructors. -/
 theorem decision_total (g : PGraph) (e : Entry) (he : e ∈ (buildModel genFacts g).main)
     (hok : NodeOk e.node) : e.decision ≠ .pyError := by
-  obtain ⟨hdec, hdom⟩ := entry_invariant g e he
+  obtain ⟨hdec, hdom, _⟩ := entry_invariant g e he
   obtain ⟨ops, node, dec⟩ := e
   simp only at hdec hdom hok ⊢
   subst hdec
@@ -180,6 +200,63 @@ theorem decision_total (g : PGraph) (e : Entry) (he : e ∈ (buildModel genFacts
   | intro => simp [adaptBestEffort]
   | func d v => simp [adaptBestEffort]
 
+/-- A shipped constructor is sent to the converter only when the schema in force at the imported
+    version is not the one it was written for, and then with exactly the import as target. -/
+theorem convert_only_when_needed (g : PGraph) (e : Entry) (he : e ∈ (buildModel genFacts g).main)
+    (hok : NodeOk e.node) (s t : Nat) (hc : e.decision = .convert s t) :
+    ∃ d o, e.node.kind = .op d o s ∧ lookup d (buildModel genFacts g).imports = some t ∧
+      genSchemaSince d o t ≠ some s := by
+  obtain ⟨hdec, hdom, hag⟩ := entry_invariant g e he
+  have hag' : ∀ d, lookup d e.opsets = lookup d (buildModel genFacts g).imports := hag
+  obtain ⟨ops, node, dec⟩ := e
+  simp only at hdec hdom hok hc hag' ⊢
+  subst hdec
+  obtain ⟨k, np, c, subs, i⟩ := node
+  cases k with
+  | op d o v =>
+    simp only [NodeOk, PNode.kind, PNode.nProtos, PNode.concrete, PNode.subs] at hok
+    obtain ⟨h1, h2, h3⟩ := hok
+    have hd := shipped_domain h3
+    have hf : fold d = d := fold_eq_self hd
+    have hfix := shipped_since_fix h3
+    obtain ⟨tg, ht, _⟩ := hdom (d, v) List.mem_cons_self
+    simp only [hf] at ht
+    subst h1
+    unfold adaptBestEffort at hc
+    simp only [hf, ht] at hc
+    by_cases hsub : subs.isEmpty = true
+    · by_cases hvt : v = tg
+      · simp [hsub, hvt] at hc
+      · by_cases hsame : sameSchema genFacts d o v tg = true
+        · simp [hsub, hvt, hsame] at hc
+        · by_cases hdd : d = ""
+          · subst hdd
+            cases c with
+            | false => simp [hsub, hvt, hsame] at hc
+            | true =>
+              simp [hsub, hvt, hsame] at hc
+              obtain ⟨rfl, rfl⟩ := hc
+              refine ⟨"", o, rfl, by rw [← hag' ""]; exact ht, ?_⟩
+              intro hq
+              apply hsame
+              unfold sameSchema
+              simp only [genFacts]
+              rw [hfix, hq]
+              simp
+          · simp [hsub, hvt, hsame, hdd] at hc
+    · simp [hsub] at hc
+  | inline imps hd =>
+    simp only [adaptBestEffort] at hc
+    cases hl : lookup "" ops with
+    | none => rw [hl] at hc; cases hc
+    | some tg =>
+      rw [hl] at hc
+      cases hd <;> simp at hc
+      split at hc <;> cases hc
+  | internal => simp [adaptBestEffort] at hc
+  | intro => simp [adaptBestEffort] at hc
+  | func d v => simp [adaptBestEffort] at hc
+
 /-! ## the statement without the exclusions is false of the code: witnesses -/
 
 open Generated.OpsetFacts in
@@ -194,15 +271,23 @@ def bodyWitness : PGraph :=
          .mk [.mk (.op "" (opNo "Constant") 13) 1 true [] 3, .mk (.op "" (opNo "ReduceMax") 18) 1 true [] 4,
               .mk (.op "" (opNo "Sub") 14) 1 true [] 5]] 0]
 
-/-- `node_valid_at_import` without "bodies at the model's maximum" is false: every node of the witness
-    is a shipped constructor with known ranks, the imports are within range, and the ReduceMean in the
-    body is kept in its version-13 form (`axes` attribute) although the model imports 18. -/
-theorem body_own_opsets_counterexample :
+/-- On the pinned tree a body was adapted against its own opsets (`policy` of its own requirements):
+    the ReduceMean in the `then` body of the witness was kept in its version-13 form (`axes` attribute)
+    although the model imports 18 — `node_valid_at_import` was false for bodies. -/
+theorem body_own_opsets_pinned_counterexample :
     (buildModel genFacts bodyWitness).imports = [("", 18)] ∧
-    (buildModel genFacts bodyWitness).main.all (fun e => decide (NodeOkB e.node)) = true ∧
+    (let node : PNode := .mk (.op "" (opNo "ReduceMean") 13) 1 true [] 1
+     let own := policy (reqGraph genFacts (.mk [node, .mk (.op "" (opNo "Sub") 14) 1 true [] 2]))
+     own = [("", 14)] ∧ adaptBestEffort genFacts own node = .keepSameSchema ∧
+       entryValid [("", 18)] ⟨own, node, .keepSameSchema⟩ = false) := by
+  decide +kernel
+
+/-- With bodies adapted against the model's requirements the same node is converted to 18. -/
+theorem body_witness_now_converted :
     (buildModel genFacts bodyWitness).main.any
-      (fun e => e.node.id == 1 && e.opsets == [("", 14)] && e.decision == .keepSameSchema &&
-        !entryValid (buildModel genFacts bodyWitness).imports e) = true := by
+      (fun e => e.node.id == 1 && e.opsets == [("", 18)] && e.decision == .convert 13 18) = true ∧
+    (buildModel genFacts bodyWitness).main.all
+      (fun e => entryValid (buildModel genFacts bodyWitness).imports e) = true := by
   decide +kernel
 
 /-- `reduce_mean(reshape(x, s), axes=[0])` (v17, rank unknown) next to a v18 `reduce_max`. -/
